@@ -4,8 +4,7 @@ import SqfModel.Basic
 
 `next` mirrors `tokenizer::next()` / `try_match`: dispatch on the first character to an ordered list
 of candidate token kinds, the first candidate with a non-zero length wins.  Line/column accounting is
-modelled exactly as the C++ does it (including its quirk that a doubled quote inside a string advances
-the column by one; a line comment leaves its newline, and the counting of the line, to the white space
+modelled exactly as the C++ does it ( a line comment leaves its newline, and the counting of the line, to the white space
 behind it; lines are counted from 1).  Every read is bounds-checked by construction (pattern
 matching on the remaining list) — the C++ routes every read through `is_match(iter)`, which tests
 `iter < m_end`.
@@ -101,7 +100,7 @@ def scanStr (q : B) : Bool → List B → Nat → Nat → Nat → Nat × Nat × 
     else if c == 10 then scanStr q false cs (n + 1) (l + 1) 0
     else scanStr q false cs (n + 1) l (k + 1)
   | true, c :: cs, n, l, k =>
-    if c == q then scanStr q false cs (n + 2) l (k + 1)
+    if c == q then scanStr q false cs (n + 2) l (k + 2)
     else (n + 1, l, k + 1)
 
 /-- `t_number`: length of the number token at the start of the input (0 = no match). -/
